@@ -490,8 +490,43 @@ def stepFault (st : State) (h2 : Bool) (host path user body status rbody fault :
         (st, verdictOf model impl (some (C02.tunnelHolds reachedI true stI status false false (field fs "b" = some "page"))))
   | _, _, _, _, _, _, _ => (st, .bad "fault op")
 
+/-! ### error-path exchanges against a request body that is still in flight (op `ereq`; harness/eng_http_err.go)
+
+    The route table of the model says whether the request has no route (`dialled = false`) or a route whose
+    CreateConnFn fails (`dialled = true`); Frp/Model/HttpErr.lean says when the answer is due given what the user has
+    sent and withholds; `C02.errHolds` demands the not-found page inside the engine's bound whenever the model says the
+    answer comes.  Uploads net/http itself waits for (model: never) are skipped. -/
+def stepErr (st : State) (host path user framing total sent ends expect : String) (impl : String) : State × Verdict :=
+  match unhx host, unhx path, (if user = "-" then some [] else unhx user), total.toNat?, sent.toNat? with
+  | some host, some path, some user, some total, some sent =>
+    let fs := impl.splitOn " "
+    let upath := pctDecode path
+    let s := st.P
+    let rt := rtString s host upath user
+    let (_, out) := HttpPool.step poolIsFixed s (.serve host upath user none none 0 false)
+    match out with
+    | .answered _ _ _ => (st, .skip "ereq: the route has a reachable backend")
+    | _ =>
+      let hasBody : Bool := framing = "ch" ∨ total > 0
+      let expect100 : Bool := expect = "1" ∧ hasBody
+      -- a user that announced Expect: 100-continue sends its body only after the server's 100 Continue
+      let u : HttpErr.Upload :=
+        { chunked := framing = "ch", unread := total, expect100 := expect100,
+          pieces := if sent > 0 ∧ !expect100 then [(0, sent)] else [],
+          ends := !hasBody || (ends = "1" && !expect100) }
+      let dialled := (routeOf s host upath user).isSome
+      match HttpErr.answerAt HttpErr.frpHandler dialled 0 u with
+      | none => (st, .skip "ereq: net/http itself waits for body bytes this user does not send")
+      | some a =>
+        let model := s!"be=- rt={rt} ! st=404 b=page ans=ok c100={(field fs "c100").getD "0"}"
+        let prop := field fs "be" = some "-" ∧
+          C02.errHolds (some a) (field fs "ans" = some "ok") (stOf fs) (field fs "b" = some "page") (field fs "ans" = some "cut") false
+        (st, verdictOf model impl (some prop))
+  | _, _, _, _, _ => (st, .bad "ereq")
+
 def step (st : State) (tok : List String) (impl : String) : State × Verdict :=
   match tok with
+  | ["ereq", host, path, user, _method, framing, total, sent, ends, expect] => stepErr st host path user framing total sent ends expect impl
   | ["freq", host, path, user, _method, body, status, rbody, fault] => stepFault st false host path user body status rbody fault impl
   | ["fh2c", host, path, user, status, rbody, fault] => stepFault st true host path user "-" status rbody fault impl
   | ["reset"] => ({}, verdictOf "-" impl)
